@@ -135,6 +135,12 @@ fn perm_lists(quick: bool) -> Vec<(String, String)> {
     out.push(("bob".to_string(), "r k*,*b".to_string()));
     out.push(("bob".to_string(), "rw *k,a*".to_string()));
     out.push(("bob".to_string(), "rx zz,k*,*k".to_string()));
+    // a wider statement followed by one whose kinds are a strict subset of it (and the other way round): every
+    // statement keeps its own kinds for its own patterns
+    out.push(("bob".to_string(), "rwix k*|r zz".to_string()));
+    out.push(("bob".to_string(), "rw k*|w akb".to_string()));
+    out.push(("bob".to_string(), "rw k*|r *b|w zz".to_string()));
+    out.push(("bob".to_string(), "r zz|rwix k*".to_string()));
     // patterns whose own text contains the letters of kinds the statement does not grant
     out.push(("bob".to_string(), "r xiwr*".to_string()));
     out.push(("bob".to_string(), "w *xiwr".to_string()));
